@@ -49,17 +49,23 @@ class Harness(LineProc):
     """the real implementation; an abort (stack overflow, OOM, SIGKILL by a limit) of the
     child is observed as outcome 'abort' and the child is restarted"""
 
-    def __init__(self, limits=True):
+    def __init__(self, limits=True, fsize=None):
         self.limits = limits
+        self.fsize = fsize      # RLIMIT_FSIZE in bytes (SIGXFSZ ignored): a file grows to that size, then writes are cut short / fail
         super().__init__([HARNESS_BIN])
 
     def start(self):
         pre = None
         if self.limits:
             import resource
+            fsize = self.fsize
 
             def pre():
                 resource.setrlimit(resource.RLIMIT_AS, (8 << 30, 8 << 30))
+                if fsize:
+                    import signal
+                    signal.signal(signal.SIGXFSZ, signal.SIG_IGN)
+                    resource.setrlimit(resource.RLIMIT_FSIZE, (fsize, fsize))
         e = dict(os.environ)
         e["HARNESS_SCRATCH"] = os.path.join(BUILD, "scratch")
         self.p = subprocess.Popen(self.argv, stdin=subprocess.PIPE, stdout=subprocess.PIPE,
